@@ -278,8 +278,12 @@ def _import(k, jt, par, joint, inertial, cfg, vel, floating_root):
         def from_xml_file(path):
             return tree
 
-    configuration = {} if cfg is None else {"joint1": cfg}
-    velocities = {} if vel is None else {"joint1": vel}
+    # requests for joints with several coordinates are handed over as numpy arrays (what a caller who keeps its state in arrays
+    # does): joint_kinematics may return views of them, so the importer must not update what it got in place
+    as_req = lambda v: np.array(list(v), dtype=object if k.sym else float) if np.ndim(v) == 1 else v  # noqa: E731
+    configuration = {} if cfg is None else {"joint1": as_req(cfg)}
+    velocities = {} if vel is None else {"joint1": as_req(vel)}
+    requested = {n: (np.array(d["joint1"], copy=True) if "joint1" in d and np.ndim(d["joint1"]) == 1 else None) for n, d in (("configuration", configuration), ("velocities", velocities))}
     pair = _QuatPair()
     names_u = dict(URDF=_U, print=lambda *a, **kw: None)
     ctx = [patched(U, **names_u), patched(sysmod, consistent_initial_conditions=_cic_stub)]
@@ -300,6 +304,9 @@ def _import(k, jt, par, joint, inertial, cfg, vel, floating_root):
             velocities=velocities,
             root_is_floating=floating_root,
         )
+    for n, d in (("configuration", configuration), ("velocities", velocities)):
+        if requested[n] is not None:
+            k.prove_eq(f"frame: the importer leaves the requested {n} of the joint as it got them", d["joint1"], requested[n])
     return system, pair, tree
 
 
